@@ -243,6 +243,7 @@ class ProofRun:
         self.assumptions = set()
         self.gen_time = 0.0
         self.outcomes = {}
+        self.path_pcs = []
 
 
 def make_interp(p):
@@ -254,7 +255,8 @@ def make_interp(p):
     it.unroll_limit = p.unroll_limit
     _install_spec_models(it)
     _install_rec_specs(it)
-    from . import regex, stdmodels
+    from . import regex, stdmodels, segs
+    segs.install(it)
     regex.install(it)
     stdmodels.install(it)
     return it
@@ -289,6 +291,8 @@ def generate(p):
             interp.obligations.append(ob)
             for s1, r in interp.call(st, lift(p.run), [], dict(vals)):
                 run.paths += 1
+                if len(run.path_pcs) < 400:
+                    run.path_pcs.append(list(s1.pc))
                 if isinstance(r, Raise):
                     e = r.exc
                     run.outcomes[e.cls.__name__] = run.outcomes.get(e.cls.__name__, 0) + 1
